@@ -362,6 +362,11 @@ class Origins:
         def first():
             return A[0] if A else {("unknown", "noargs")}
 
+        if callee == "std::ops::FromResidual::from_residual":
+            # the early return of `?`: the operand's failure passed on — it is the Err / None variant, it has no success payload
+            variant = "None" if (t["dest"].get("ty") or "").startswith("std::option::Option") else "Err"
+            return {a if a[0] == "through" and a[1] == variant else ("through", variant, a) for a in first()
+                    if not (a[0] == "through" and a[1] != variant)}
         if callee in VIEW_CALLS or res in VIEW_CALLS:
             kind = VIEW_CALLS.get(callee) or VIEW_CALLS.get(res)
             return {("view", kind, a) for a in first()}
@@ -738,8 +743,9 @@ class CallGraph:
             if fn in self.nodes:
                 self.edges[name].add(fn)
             else:
-                # reference to trait method item: fan out
-                self._fan(name, fn, None)
+                # reference to a trait method item (`JmespathError::from` passed to map_err): the implementing type is the
+                # first generic argument of the item; fan out to all impls only when that does not identify one
+                self._fan(name, fn, None, self_ty=(op.get("fn_args") or [None])[0])
 
     def _scan_rv(self, name, rv):
         if rv["k"] == "agg" and rv["ak"] == "closure":
@@ -751,13 +757,17 @@ class CallGraph:
         for o in rv.get("ops", []):
             self._scan_op(name, o)
 
-    def _fan(self, name, callee, t):
+    def _fan(self, name, callee, t, self_ty=None):
         # callee like "functions::Function::evaluate" (trait method path)
         m = re.match(r"^(.*)::([A-Za-z_0-9]+)$", callee)
         if not m:
             return False
         tr, item = m.group(1), m.group(2)
         impls = self.trait_impls.get((tr, item))
+        if impls and self_ty:
+            exact = [d for d in impls if (self.nodes[d].impl_self or "") == self_ty]
+            if exact:
+                impls = exact
         if impls:
             for d in impls:
                 self.edges[name].add(d)
